@@ -181,10 +181,10 @@ def buildField : Schema → Outcome ItemAnnot
   | .bytes rules =>
     .ok { kind := .bytes, j5 := some .bytes, list := none, psmKey := none,
           validate := rules.map fun r => .bytes r.minLength r.maxLength }
-  | .date lr =>
-    .ok { kind := .message .date, j5 := none, list := lr.map .date, psmKey := none, validate := none }
-  | .decimal lr =>
-    .ok { kind := .message .decimal, j5 := none, list := lr.map .decimal, psmKey := none, validate := none }
+  | .date rules lr =>
+    .ok { kind := .message .date, j5 := rules.map .date, list := lr.map .date, psmKey := none, validate := none }
+  | .decimal rules lr =>
+    .ok { kind := .message .decimal, j5 := rules.map .decimal, list := lr.map .decimal, psmKey := none, validate := none }
   | .float is64 lr =>
     .ok { kind := if is64 then .double else .float, j5 := some .float, psmKey := none, validate := none,
           list := lr.map fun p => if is64 then .double p else .float p }
